@@ -58,6 +58,8 @@ type Profile struct {
 	LinkKey    bool // writers use a link-encrypting codec in (most) runs
 	CodecSwarm bool // draw the codec (default | link | pb) per run
 	CrashEnum  bool // C17: enumerate crash points over the write log
+	NoFaults   bool // source-building worlds: no fault kind enabled
+	MemOnly    bool // messages only in in-memory forms (no store loads while building)
 	MinSteps, MaxSteps int
 }
 
@@ -183,7 +185,7 @@ func NewWorld(r *Run, p *Profile) *World {
 	w.PayloadBin = r.Choose("payload-alphabet", 3) == 0
 	w.PCMode = r.Choose("pointer-mode", 3)
 	faulty := r.Choose("fault-batch", 4) != 0 // a quarter of the runs are fault-free
-	if faulty {
+	if faulty && !p.NoFaults {
 		w.F.drop = r.Bool("f-drop", 1, 2)
 		w.F.dup = r.Bool("f-dup", 1, 2)
 		w.F.partition = r.Bool("f-part", 1, 2)
@@ -454,7 +456,7 @@ func (w *World) doSend() {
 	if from == nil || toIdx == from.Idx {
 		return
 	}
-	if len(from.Set) == 0 || w.Codec == "pb" {
+	if len(from.Set) == 0 || w.Codec == "pb" || w.P.MemOnly {
 		form = form % 2
 	}
 	m := &Msg{id: w.msgSeq, from: from.Idx, to: toIdx, form: form, set: copySet(from.Set)}
@@ -1161,16 +1163,12 @@ func (w *World) healAndConverge() {
 	w.R.Violate("C01:liveness", "replicas did not converge within %d anti-entropy rounds after faults stopped", N)
 }
 
-// RunE0 is the generic replica-world run used by several properties.
-func RunE0(r *Run, p *Profile) {
+// BuildWorld creates a world and runs its event loop (oracles after every event).
+func BuildWorld(r *Run, p *Profile) *World {
 	w := NewWorld(r, p)
 	steps := p.MinSteps + r.Choose("steps", p.MaxSteps-p.MinSteps+1)
-	maxSteps := p.MaxSteps
-	for w.step = 0; w.step < maxSteps; w.step++ {
+	for w.step = 0; w.step < steps; w.step++ {
 		r.T.Mark()
-		if w.step >= steps {
-			break
-		}
 		op := w.pickOp()
 		if op == opEnd {
 			break
@@ -1186,12 +1184,18 @@ func RunE0(r *Run, p *Profile) {
 		w.afterEvent()
 	}
 	r.T.Mark()
+	r.Add("events", int64(w.step))
+	return w
+}
+
+// RunE0 is the generic replica-world run used by several properties.
+func RunE0(r *Run, p *Profile) {
+	w := BuildWorld(r, p)
 	if p.Check["C01"] || p.Check["C17"] {
 		w.healAndConverge()
 	}
 	w.finish()
 	r.SimNS = w.Now * 1e6
-	r.Add("events", int64(w.step))
 }
 
 func (w *World) dispatch(op int) {
